@@ -324,11 +324,15 @@ func vhWhereValue(text string) field.Value {
 	return field.ValueOf(text)
 }
 
-//verif:cfg b_dataset=11_objects(field_missing|negative|fraction|1|two_strings_differing_in_case|true|false|null|JSON|quoted_number) b_where=range_form(min,max_from_13_operands,each_inclusive_or_exclusive)|operator_form(<,<=,>,>=,==,!=_x_13_operands)|WHEREIN(2_of_13_operands) b_queries=SCAN|SEARCH(strings)|WITHIN ignorego=1
+//verif:cfg b_dataset=11_objects(field_missing|negative|fraction|1|two_strings_differing_in_case|true|false|null|JSON|quoted_number) b_where=range_form(min,max_from_13_operands,each_inclusive_or_exclusive)|operator_form(<,<=,>,>=,==,!=_x_13_operands)|WHEREIN(2_of_13_operands)|expression_form(field_op_number,_decided_for_numeric_and_missing_fields) b_queries=SCAN|SEARCH(strings)|WITHIN ignorego=1
 func VH_C12_where() {
 	s := vhServer()
 	q := vchoose(3)
+	form := vchoose(4)
 	for i, o := range vhWhereObjs {
+		if form == 3 && o[0] == "j_json" {
+			continue // expressions hand JSON field values to the expression library as opaque objects (not modelled)
+		}
 		args := []string{"SET", "k", o[0]}
 		if o[1] != "" {
 			args = append(args, "FIELD", "f", o[1])
@@ -343,7 +347,7 @@ func VH_C12_where() {
 	}
 	var filter []string
 	var want func(v field.Value) bool
-	form := vchoose(3)
+	numericOnly := false
 	a := vhWhereArgs[vchoose(len(vhWhereArgs))]
 	b := vhWhereArgs[vchoose(len(vhWhereArgs))]
 	switch form {
@@ -388,6 +392,29 @@ func VH_C12_where() {
 			}
 			return !vhSpecEq(v, x)
 		}
+	case 3: // WHERE "f <op> number": an expression; decided here for the objects whose field is a number or missing
+		op := vchoose(6)
+		if field.ValueOf(a).Kind() != field.Number || a == "inf" || a == "-inf" {
+			return
+		}
+		filter = []string{"WHERE", "f " + [6]string{"<", "<=", ">", ">=", "==", "!="}[op] + " " + a}
+		numericOnly = true
+		x := field.ValueOf(a)
+		want = func(v field.Value) bool {
+			switch op {
+			case 0:
+				return v.Num() < x.Num()
+			case 1:
+				return v.Num() <= x.Num()
+			case 2:
+				return v.Num() > x.Num()
+			case 3:
+				return v.Num() >= x.Num()
+			case 4:
+				return v.Num() == x.Num()
+			}
+			return v.Num() != x.Num()
+		}
 	default: // WHEREIN f 2 a b
 		filter = []string{"WHEREIN", "f", "2", a, b}
 		x, y := field.ValueOf(a), field.ValueOf(b)
@@ -413,6 +440,9 @@ func VH_C12_where() {
 	_, got := vhIDsOf(r)
 	n := 0
 	for _, o := range vhWhereObjs {
+		if numericOnly && (vhWhereValue(o[1]).Kind() != field.Number || o[0] == "j_json") {
+			continue
+		}
 		w := want(vhWhereValue(o[1]))
 		found := false
 		for _, id := range got {
@@ -425,6 +455,8 @@ func VH_C12_where() {
 		}
 		vassert("C12.K2.where_keeps_exactly_the_satisfying_objects", found == w)
 	}
-	vassert("C12.K2.where_no_extra_ids", len(got) == n)
+	if !numericOnly {
+		vassert("C12.K2.where_no_extra_ids", len(got) == n)
+	}
 	vobs("where", q, form, a, b, n)
 }
